@@ -28,6 +28,14 @@ def run_fc(fc, args, cwd):
         return "timeout", "", ""
 
 
+MUTUAL = [
+    "type MA = {Name: string; Bs: []MB}\nand MB = {Id: int; As: []MA}\n\nlet getBs (a:MA) =\n  a.Bs\n",
+    "type MA = {Name: string; Bs: []MB}\nand MB = {Id: int; As: []MA}\n\nlet firstId (a:MA) (b:MB) =\n  let xs = a.Bs\n  let ys = b.As\n  (xs, ys, b.Id)\n",
+    "type PA = {P1: int*PB}\nand PB = {P2: []PC}\nand PC = {P3: string->PA}\n\nlet p3 (c:PC) =\n  c.P3\n\nlet p1 (a:PA) =\n  a.P1\n",
+    "type Node = {Kids: []Node; Up: Edge}\nand Edge = {To: Node; W: int}\n\nlet kids (n:Node) =\n  n.Kids\n\nlet mk (e:Edge) =\n  [e.To]\n",
+]
+
+
 def cyclic_def(r):
     """a definition whose parameters are unified with types that contain them (no finite type): the
     same variable at several depths of slices / pairs, possibly through a second parameter"""
@@ -94,12 +102,17 @@ def mutants(r, corpus, n):
             m = src + "\n" + r.choice([
                 "let selfapp x =\n  x x\n", "let omega f =\n  f f f\n", "let loop x =\n  loop x\n",
                 "let bad (a:int) =\n  a + \"s\"\n", "let y f =\n  (fun x -> f (x x)) (fun x -> f (x x))\n",
-                "let cyc x =\n  [x; [x]]\n", "let t x =\n  (x, x x)\n", "type R = {r: R}\n", "let deep () =\n  " + "(" * 200 + "1" + ")" * 200 + "\n",
+                "let cyc x =\n  [x; [x]]\n", "let t x =\n  (x, x x)\n", "type R = {r: R}\n",
+                # records that contain each other (cycles of length 2 and 3, through slices / tuples / functions), used
+                MUTUAL[0], MUTUAL[1], MUTUAL[2], MUTUAL[3], "let deep () =\n  " + "(" * 200 + "1" + ")" * 200 + "\n",
                 cyclic_def(r), cyclic_def(r), cyclic_def(r)])
         out.append(m)
     # a fixed share of cyclic definitions (found D22: the relations of the resolver never settled)
     for _ in range(max(30, n // 60)):
         out.append(r.choice(corpus)[:r.choice([0, 400, 2000])].rsplit("\nlet ", 1)[0] + "\n\n" + cyclic_def(r))
+    # … and of record types that contain each other, alone in a file: always part of a run
+    for d in MUTUAL:
+        out.append("package main\n\n" + d)
     return out
 
 
@@ -232,7 +245,7 @@ def run(ctx):
             # without a file or fails without diagnostic is a failing input
             ctx.direct.append({"kind": "driver behaviour differs from exit-0-iff-complete discipline", "args": i, "predicted": e, "observed": o})
     shutil.rmtree(wd, ignore_errors=True)
-    ctx.finish(rule="tokenizer: every byte value x 12 continuations, random fragment strings, corpus files, truncated/damaged corpus files through the real scanners vs the model; real binary (timeout %ds, 6 GB address-space limit) on mutants of the samples and compiler sources: truncation at random offsets, token deletion/duplication/swap, indentation damage, inserted fragments, unterminated comments/strings, comment at EOF, self-referential, cyclic (a variable unified with types containing it at several depths) and ill-typed definitions, deep nesting, DOS line ends / stray CR and other control bytes; argument lists mixing good/bad/missing/unwritable (open fails)/full device (write fails)/.foi files vs the driver model; distinct = distinct mutants" % TIMEOUT)
+    ctx.finish(rule="tokenizer: every byte value x 12 continuations, random fragment strings, corpus files, truncated/damaged corpus files through the real scanners vs the model; real binary (timeout %ds, 6 GB address-space limit) on mutants of the samples and compiler sources: truncation at random offsets, token deletion/duplication/swap, indentation damage, inserted fragments, unterminated comments/strings, comment at EOF, self-referential, cyclic (a variable unified with types containing it at several depths), mutually recursive record types and ill-typed definitions, deep nesting, DOS line ends / stray CR and other control bytes; argument lists mixing good/bad/missing/unwritable (open fails)/full device (write fails)/.foi files vs the driver model; distinct = distinct mutants" % TIMEOUT)
 
 
 def replay(ctx, path):
